@@ -31,3 +31,5 @@ def run(ctx):
     g = [recur.depth_guard(m, c) for c in comps]
     ctx.ob("N3.CHECK-DEPTH", "eval_check_expr", bool(comps) and all(g), "CHECK evaluator recursion is depth-guarded (%s)" % (g[0] if g else "") if comps and all(g) else
            "CHECK expression evaluation recurses without a depth limit", "src/database/database.rs")
+    # shared with C10 X4: rollback / UPDATE / DELETE must address index entries under the key INSERT stored them
+    dmlrules.index_key_suffix_rule(ctx, "N4.KEY-SUFFIX", dmlrules.KEY_SUFFIX_TOLERATED)
